@@ -226,7 +226,6 @@ type c01ClassDef struct {
 }
 
 var c01Classes = []c01ClassDef{
-	{"findselection-shadow", func(o opFacts, d dataFacts, sh bool) bool { return sh }, []string{"wrong-data", "error/shape", "error/missing-id"}},
 	{"directive-variable", func(o opFacts, d dataFacts, sh bool) bool { return o.DirectiveVariable }, []string{"invalid-subrequest/undefined-variable"}},
 	{"directive-on-flattened-selection", func(o opFacts, d dataFacts, sh bool) bool { return o.Directive }, []string{"wrong-data"}},
 	{"root-typename", func(o opFacts, d dataFacts, sh bool) bool { return o.RootTypename }, []string{"error/internal-service-url"}},
@@ -238,7 +237,6 @@ var c01Classes = []c01ClassDef{
 	{"abstract-type-selection", func(o opFacts, d dataFacts, sh bool) bool { return o.Abstract }, []string{"invalid-subrequest/unknown-field", "wrong-data", "error/missing-id"}},
 	{"variable-named-id", func(o opFacts, d dataFacts, sh bool) bool { return o.VarNamedID }, []string{"invalid-subrequest/other", "wrong-data", "invalid-subrequest/undefined-variable"}},
 	{"var-default", func(o opFacts, d dataFacts, sh bool) bool { return o.VarDefault }, []string{"wrong-data"}},
-	{"hash-in-id", func(o opFacts, d dataFacts, sh bool) bool { return d.HashInID }, []string{"error/empty-id-in-path"}},
 	{"null-in-object-list", func(o opFacts, d dataFacts, sh bool) bool { return d.NullObjElems }, []string{"error/null-list-entry", "wrong-data"}},
 }
 
